@@ -195,6 +195,8 @@ wrap_level!(wrap1, wrap_end);
 wrap_level!(wrap2, wrap1);
 wrap_level!(wrap3, wrap2);
 
+include!("hooks_concrete.rs");
+
 /// Reference interpreter. Wrappers are listed innermost first; evaluation starts at the outermost.
 fn reference(kinds: &[u8], env: &Env) -> (Result<u32, String>, Vec<Entry>) {
     // assign part indices the way the builder does (innermost first)
@@ -333,17 +335,31 @@ pub fn run_c19(tier: Tier) -> i32 {
                                     handler_ok,
                                     log: RefCell::new(vec![]),
                                 });
+                              // twice: built by generic code (receiver type `S: Serve`), and - for
+                              // the nestings written out in hooks_concrete.rs - chained directly on
+                              // the concrete types
+                              for concrete_types in [false, true] {
+                                env.log.borrow_mut().clear();
                                 let out = std::panic::catch_unwind(std::panic::AssertUnwindSafe(|| {
-                                    wrap3(Handler(env.clone()), kinds, 0, 0, &env)
+                                    if concrete_types {
+                                        concrete(kinds, &env)
+                                    } else {
+                                        Some(wrap3(Handler(env.clone()), kinds, 0, 0, &env))
+                                    }
                                 }));
+                                let out = match out {
+                                    Ok(None) => continue,
+                                    Ok(Some(o)) => Ok(o),
+                                    Err(e) => Err(e),
+                                };
                                 evals += 1;
                                 {
                                     use std::hash::{Hash, Hasher};
                                     let mut h = std::collections::hash_map::DefaultHasher::new();
-                                    (kinds, &bs, &as_, handler_ok).hash(&mut h);
+                                    (kinds, &bs, &as_, handler_ok, concrete_types).hash(&mut h);
                                     distinct.insert(h.finish());
                                 }
-                                let label = format!("nesting (innermost first) {kinds:?} before-parts {bs:?} after-parts {as_:?} handler_ok={handler_ok}");
+                                let label = format!("nesting (innermost first) {kinds:?}{} before-parts {bs:?} after-parts {as_:?} handler_ok={handler_ok}", if concrete_types { " chained on the concrete types" } else { "" });
                                 let got = match out {
                                     Err(_) => {
                                         failures.push(("C19-panic".to_string(), format!("{label}: {}", crate::mock::take_panic())));
@@ -377,6 +393,7 @@ pub fn run_c19(tier: Tier) -> i32 {
                                 } else if got != want && failures.len() < 100 {
                                     failures.push(("C19-result".to_string(), format!("{label}: result {got:?}, expected {want:?}")));
                                 }
+                              }
                             }
                         }
                     }
@@ -398,7 +415,7 @@ pub fn run_c19(tier: Tier) -> i32 {
         distinct.len() as u64,
         &failures,
         json!({"nestings": nestings.len(), "nestings_skipped_over_part_cap": skipped, "part_cap": cap_parts}),
-        "every nesting of <=3 wrappers from {before(h), after(h), before_and_after(h), before().then(h1)[.then(h2)[.then(h3)]].serving(s)} around a recording handler (259 type instantiations, built by generic code, no dynamic dispatch over tarpc types); for each nesting every assignment of behaviours: each before-part in {ok, ok+mutate ctx, fail}, each after-part in {keep, Ok->Err, Err->Ok}, handler in {Ok, Err}; nestings whose parts exceed the cap are listed as skipped; exact equality of the invocation log (who ran, order, context marker seen, result seen) and of the final Result with a reference interpreter",
+        "every nesting of <=3 wrappers from {before(h), after(h), before_and_after(h), before().then(h1)[.then(h2)[.then(h3)]].serving(s)} around a recording handler (259 type instantiations built by generic code, and 106 of them - all nestings of depth <= 2, depth 3 over four wrapper kinds - also chained directly on the concrete types, so that method resolution is the one application code gets; no dynamic dispatch over tarpc types); for each nesting every assignment of behaviours: each before-part in {ok, ok+mutate ctx, fail}, each after-part in {keep, Ok->Err, Err->Ok}, handler in {Ok, Err}; nestings whose parts exceed the cap are listed as skipped; exact equality of the invocation log (who ran, order, context marker seen, result seen) and of the final Result with a reference interpreter",
         samples.into_inner().unwrap().into_iter().map(|c| json!({"case": c})).collect(),
     )
 }
